@@ -150,7 +150,7 @@ func runMuxStruct(c *mon.Ctx, prop string) {
 				continue
 			}
 			r := c.Rng("grid", pl)
-			for shape := 0; shape < 12; shape++ {
+			for shape := 0; shape < 14; shape++ {
 				p := &astits.Packet{Header: astits.PacketHeader{PID: 0x1500, HasPayload: pl > 0, ContinuityCounter: uint8(shape)}, Payload: gen.Bytes(r, int(pl))}
 				switch shape / 2 {
 				case 1:
@@ -171,6 +171,16 @@ func runMuxStruct(c *mon.Ctx, prop string) {
 				case 5:
 					p.Header.HasAdaptationField = true
 					p.AdaptationField = &astits.PacketAdaptationField{StuffingLength: 183 + r.IntN(80)} // alone exceeds the packet
+				case 6:
+					// private data whose redundant length field says something else (an application replaced the data of a parsed
+					// packet): whichever of the two the library goes by, or if it refuses the packet, the output stays whole packets
+					p.Header.HasAdaptationField = true
+					a := gen.RandomAF(r, 1+r.IntN(40), -1, -1)
+					a.HasTransportPrivateData = true
+					a.TransportPrivateData = gen.Bytes(r, 1+r.IntN(20))
+					a.TransportPrivateDataLength = []int{0, len(a.TransportPrivateData) - 1, len(a.TransportPrivateData) + 1, 255}[r.IntN(4)]
+					p.AdaptationField = a
+					c.Count("writepacket_private_data_length_field_inconsistent")
 				}
 				if !p.Header.HasPayload {
 					// self-consistent adaptation-only packet: the field fills the packet (oversize shapes stay as they are)
